@@ -4,10 +4,12 @@ import BeyondVerif.Model.CcsdsDate
 Kernel-checked witnesses for C04, on C03's model of `Date` with two days of IERS values (2015-03-03 / 04: UT1−UTC =
 −0.5295713 s and −0.5306080 s, TAI−UTC = 35 s).
 
-1. `ccsds_mixed_label_moves_instant` — **open finding `ccsds-mixed-scale-epochs`**: the CCSDS writers emit every epoch
-   (maneuver, ephemeris point, covariance) as the clock reading of that date's OWN scale while TIME_SYSTEM is the scale of
-   the state's date (OPM/OMM) or of the first point (OEM); the readers construct every epoch in TIME_SYSTEM.  A
-   TT-labelled maneuver date on a UTC-labelled orbit is read back 67.184 s later.
+1. `ccsds_mixed_label_moves_instant` — **regression witness** of finding `ccsds-mixed-scale-epochs` (fixed by /repo
+   commit aa1842c): the CCSDS writers used to emit every epoch (maneuver, ephemeris point, covariance) as the clock
+   reading of that date's OWN scale while TIME_SYSTEM is the scale of the state's date (OPM/OMM) or of the first point
+   (OEM); the readers construct every epoch in TIME_SYSTEM.  A TT-labelled maneuver date on a UTC-labelled orbit was
+   read back 67.184 s later (`Message.dumpOwnScale`).  With the writers converting through `in_scale` (`Message.dump`,
+   the current code) the same message reads back as the instants written: `ccsds_mixed_label_keeps_instant`.
 2. `same_day_shortcut_keeps_wrong_record` — regression witness: a `+` that, when the sum stays in the same day of the
    date's own scale, re-uses the operand's offset and EOP record instead of going through the constructor (seeded change
    C04-m4) gives, 10 s after TAI midnight, the record of the previous UTC day.
@@ -53,17 +55,32 @@ def head : Except Err Date := ofDatetime cfg env2 utc usNoon
 /-- a maneuver 10 min later, its date labelled TT -/
 def man : Except Err Date := bind (bind head (fun h => add cfg env2 h 600000000)) (fun a => changeScale cfg env2 a tt)
 
-/-- instants of the epochs of the message `⟨head, [man]⟩` after `dump` then `load` -/
-def reread : Option (List (Option Int)) :=
+/-- instants of the epochs of the message `⟨head, [man]⟩` written as before aa1842c (own-scale readings), then read -/
+def rereadOwnScale : Option (List (Option Int)) :=
   match head, man with
-  | .ok h, .ok m => some ((CcsdsDate.load cfg env2 (CcsdsDate.Message.dump ⟨h, [m]⟩)).map instOf)
+  | .ok h, .ok m => some ((CcsdsDate.load cfg env2 (CcsdsDate.Message.dumpOwnScale ⟨h, [m]⟩)).map instOf)
   | _, _ => none
 
-/-- the TT label does not move the maneuver (same instant as the UTC-labelled one), but writing it under
-TIME_SYSTEM = UTC and reading it back moves it by TT − UTC = 67.184 s = 671 840 000 ticks; the state's epoch is kept -/
+/-- … and written as the current code does (`in_scale`), then read -/
+def reread : Option (List (Option Int)) :=
+  match head, man with
+  | .ok h, .ok m =>
+    match CcsdsDate.Message.dump cfg env2 ⟨h, [m]⟩ with
+    | .ok w => some ((CcsdsDate.load cfg env2 w).map instOf)
+    | .error _ => none
+  | _, _ => none
+
+/-- before the fix: the TT label does not move the maneuver (same instant as the UTC-labelled one), but writing it
+under TIME_SYSTEM = UTC as its TT clock reading and reading it back moved it by TT − UTC = 67.184 s = 671 840 000 ticks;
+the state's epoch was kept -/
 theorem ccsds_mixed_label_moves_instant :
     instOf head = some 49321872350000000 ∧ instOf man = some 49321878350000000 ∧
-    reread = some [some 49321872350000000, some (49321878350000000 + 671840000)] := by
+    rereadOwnScale = some [some 49321872350000000, some (49321878350000000 + 671840000)] := by
+  decide
+
+/-- the current writers: the same message reads back as the instants written -/
+theorem ccsds_mixed_label_keeps_instant :
+    reread = some [instOf head, instOf man] ∧ instOf man = some 49321878350000000 := by
   decide
 
 /-! ### 2. a same-day shortcut for `+` -/
